@@ -119,6 +119,14 @@ def _worker(args):
     return acc
 
 
+def _pair_digest(args):
+    """Hidden-state probe: run shard A, then shard B in the SAME fresh process; return the digest of B."""
+    modname, a, b = args
+    if a is not None:
+        _worker((modname, a))
+    return _worker((modname, b)).digest()
+
+
 def _shard_sigs(args):
     """Run one shard in a fresh process and return the violation signatures it produces."""
     acc = _worker(args)
@@ -170,8 +178,7 @@ def run_check(prop: str, tier: str, seed: int, only: str = "", budget: float = 0
                 traceback.print_exc()
                 harness_errors.append(f"shard {order[i]!r} crashed: {type(e).__name__}: {e}")
                 continue
-            if i == 0 or i == len(order) - 1:
-                digests[i] = acc.digest()
+            digests[i] = acc.digest()
             total.merge(acc)
             done += 1
         else:
@@ -187,6 +194,39 @@ def run_check(prop: str, tier: str, seed: int, only: str = "", budget: float = 0
                     harness_errors.append(
                         f"nondeterminism: shard {probe[j]!r} gave different results in two executions"
                     )
+    # Sequence probe for state hidden in the implementation (module-level caches, scratch buffers hoisted out of
+    # a function, objects shared between calls): a shard must give bit-identical outcomes whether it runs in a
+    # fresh process or right after its neighbouring shard (which typically differs in one factor, e.g. the
+    # align_corners flag or the dtype, on the same shapes). Depth-2 exploration over the shard list.
+    pair_violations = []
+    if done == len(order) and len(order) > 1 and not only and not os.environ.get("VERIF_NO_PAIRS"):
+        frac = 0.1 if tier == "quick" else 0.2
+        npairs = max(4, min(int(len(order) * frac), 48 if tier == "quick" else 160))
+        step = max(1, len(order) // npairs)
+        idxs = list(range((seed % step), len(order), step))[:npairs]
+        jobs = [(i, order[i - 1], order[i]) for i in idxs]  # order[-1] precedes order[0]
+        with ctx.Pool(min(procs, len(jobs)), maxtasksperchild=1) as pool:
+            res = pool.map(_pair_digest, [(modname, a, b) for _, a, b in jobs], chunksize=1)
+            suspects = [(i, a, b) for (i, a, b), d in zip(jobs, res) if d != digests.get(i)]
+            for i, a, b in suspects[:6]:
+                # confirm: B alone twice (fresh) identical, and A;B twice identical but different from B alone
+                alone = pool.map(_pair_digest, [(modname, None, b)] * 2, chunksize=1)
+                after = pool.map(_pair_digest, [(modname, a, b)] * 2, chunksize=1)
+                if alone[0] == alone[1] and after[0] == after[1] and alone[0] != after[0]:
+                    pair_violations.append((a, b))
+                else:
+                    harness_errors.append(f"sequence probe unstable for shard {b!r} after {a!r}")
+        total.info["sequence_probe_pairs"] = len(jobs)
+        total.transitions += 0
+    for a, b in pair_violations:
+        v_case = {"mode": "pair", "first": a, "then": b}
+        total.violation(
+            f"{prop}/history-dependence/shard-after-shard",
+            v_case,
+            f"shard {b!r} gives different outcomes when it runs right after shard {a!r} in the same process than in a fresh process: "
+            "results depend on state kept inside the implementation between calls",
+            size=0,
+        )
     wall = time.time() - t0
     return finish(prop, mod, tier, seed, total, wall, len(order), done, harness_errors)
 
@@ -223,8 +263,12 @@ def finish(prop, mod, tier, seed, total, wall, nshards, done, harness_errors):
     to_replay = [(x, False) for x in unlisted[:60]] + [(x, True) for _, (_, l) in listed.items() for x in l[:2]]
     for (sig, v, path), is_known in to_replay:
         try:
-            r1 = sorted(s for s, _ in mod.replay(v.case))
-            r2 = sorted(s for s, _ in mod.replay(v.case))
+            if isinstance(v.case, dict) and v.case.get("mode") == "pair":
+                r1 = sorted(s for s, _ in replay_pair(prop, v.case))
+                r2 = sorted(s for s, _ in replay_pair(prop, v.case))
+            else:
+                r1 = sorted(s for s, _ in mod.replay(v.case))
+                r2 = sorted(s for s, _ in mod.replay(v.case))
         except Exception as e:  # noqa: BLE001
             import traceback
 
@@ -375,6 +419,18 @@ def finish(prop, mod, tier, seed, total, wall, nshards, done, harness_errors):
     return EXIT_VIOLATION if unlisted else EXIT_OK
 
 
+def replay_pair(prop: str, case: dict):
+    """Replay of a history-dependence violation: shard B alone vs right after shard A, each in a fresh process."""
+    import multiprocessing as mp
+
+    ctx = mp.get_context("fork")
+    with ctx.Pool(2, maxtasksperchild=1) as pool:
+        alone, after = pool.map(_pair_digest, [(CHECKS[prop], None, case["then"]), (CHECKS[prop], case["first"], case["then"])], chunksize=1)
+    if alone != after:
+        return [(f"{prop}/history-dependence/shard-after-shard", "outcomes of the second shard depend on the shard executed before it in the same process")]
+    return []
+
+
 def run_replay(prop: str, path: str):
     mod = importlib.import_module(CHECKS[prop])
     data = json.loads(Path(path).read_text())
@@ -383,6 +439,8 @@ def run_replay(prop: str, path: str):
         # the violation needs the state built up by the earlier cases of its shard: replay the whole shard
         acc = mod.run_shard(data["shard"])
         res = [(sig, lst[0].detail) for sig, lst in acc.violations.items() if sig == data.get("sig")]
+    elif isinstance(case, dict) and case.get("mode") == "pair":
+        res = replay_pair(prop, case)
     else:
         res = mod.replay(case)
     known, _ = load_findings(prop)
